@@ -28,6 +28,8 @@ pub enum Beh {
     EventsClosing(u32),
     /// fetch the body (limit 1 000 000); the second call sends `k` events before it returns an event stream (the queue holds 50)
     UploadThenEvents(u32),
+    /// fetch the body (limit 1 000 000); the second call answers with the uploaded file itself as the response body
+    EchoUpload,
     /// the documented helper: `req.recv_body(M)`
     RecvBody(u64),
     /// an event stream of `n` small events, then one that does not fit the encoder's read slice (70 000 bytes), then one more
@@ -127,6 +129,13 @@ fn handler(req: Request) -> Response {
             if req.body.is_pending() { Response::get_body_and_reprocess(1_000_000) } else {
                 std::thread::sleep(Duration::from_millis(ms));
                 Response::text(200, format!("got-{path}-{}", req.body.len().unwrap_or(0)))
+            }
+        }
+        Beh::EchoUpload => {
+            if req.body.is_pending() { return Response::get_body_and_reprocess(1_000_000); }
+            match req.body {
+                servlin::RequestBody::TempFile(tf, len) => Response::new(200).with_body(servlin::ResponseBody::TempFile(tf, len)),
+                other => Response::text(200, format!("mem-{path}-{}", other.len().unwrap_or(0))),
             }
         }
         Beh::RecvBody(m) => match req.recv_body(m) {
@@ -271,6 +280,7 @@ pub fn request_bytes(spec: &str) -> (Vec<u8>, String, Beh) {
         "U" => Beh::Unwritable,
         "B" => Beh::EventBurst(beh[1..].parse().unwrap()),
         "R" => Beh::RecvBody(beh[1..].parse().unwrap()),
+        "T" => Beh::EchoUpload,
         "O" => Beh::EventsThenOversize(beh[1..].parse().unwrap()),
         "w" => Beh::Wait(beh[1..].parse().unwrap()),
         "F" => {
@@ -645,6 +655,13 @@ pub fn run(ctx: &mut Ctx) {
     for k in 1..=5usize {
         for (j, reqs) in ["GET:/a:n::n200", "GET:/a:n::n200;GET:/b:n::n404;GET:/c:n::n200", "POST:/p:k:3031323334353637:n201;GET:/q:n::n200"].iter().enumerate() {
             if ctx.mine(61_000 + (k * 10 + j) as u64) { case(ctx, "c04", "100", "1", &format!("tail{k}"), reqs); }
+        }
+    }
+    // the handler answers with the uploaded file itself (it keeps the file past its own return): three exchanges on one connection
+    for (j, sched) in ["single", "pingpong"].iter().enumerate() {
+        if ctx.mine(62_000 + j as u64) {
+            let b = |n: usize, ch: u8| enc(&(0..n).map(|i| ch + (i % 7) as u8).collect::<Vec<u8>>());
+            case(ctx, "c04", "100", "1", sched, &format!("POST:/echo1:k:{}:T;PUT:/echo2:k:{}:T;POST:/echo3:e:{}:T;GET:/after:n::n200", b(5000, b'a'), b(101, b'k'), b(70_000, b'q')));
         }
     }
     // long keep-alive sequences: 130 and 260 requests on one connection, pipelined and one at a time
@@ -1037,6 +1054,15 @@ pub fn run_c10(ctx: &mut Ctx) {
             case(ctx, "c10", "100", "1", "linger", &format!("POST:/r0:d{declared}:{body}:{code}"));
         }
     }
+    // the handler answers with the uploaded file itself as the response body (it keeps the file past its own return):
+    // three exchanges on one connection; the file is gone once its response has been sent
+    idx += 1;
+    if ctx.mine(idx) {
+        let b = |n: usize, ch: u8| enc(&(0..n).map(|i| ch + (i % 7) as u8).collect::<Vec<u8>>());
+        case(ctx, "c10", "100", "1", "linger", &format!("POST:/echo1:k:{}:T;PUT:/echo2:k:{}:T;POST:/echo3:e:{}:T;GET:/after:n::n200", b(5000, b'a'), b(101, b'k'), b(70_000, b'q')));
+    }
+    idx += 1;
+    if ctx.mine(idx) { case(ctx, "c10", "100", "1", "single", &format!("POST:/echo4:u:{}:T", enc(&vec![b'z'; 3000]))); }
     // an upload whose handler reports 10 / 50 / 51 / 80 events before it returns (the event queue holds 50), and one whose
     // handler keeps a clone of the request beyond its return: answered, file gone
     for (k, beh) in ["S10", "S50", "S51", "S80", "Q"].iter().enumerate() {
